@@ -18,6 +18,6 @@ type Expiry struct {
 	Horizon   int    `json:"horizon_x"` // multiples of the idle timeout
 }
 
-func genExpiry(seed uint64, r *core.Rand) Scenario { return genExpiryImpl(seed, r) }
+func genExpiry(seed uint64, r *core.Rand) Scenario     { return genExpiryImpl(seed, r) }
 func runExpiry(t *testing.T, sc Scenario) *core.Result { return runExpiryImpl(t, sc) }
-func shrinkExpiry(sc Scenario) []Scenario            { return shrinkExpiryImpl(sc) }
+func shrinkExpiry(sc Scenario) []Scenario              { return shrinkExpiryImpl(sc) }
